@@ -45,6 +45,13 @@ def fmt (f : String) (args : List String) : String := String.ofList (fmtAux f.to
 /-- python `x in xs` for lists -/
 def isIn {α} [BEq α] (x : α) (xs : List α) : Bool := xs.contains x
 
+/-- `while test(s): s = body(s)` cut off after at most `n` iterations (the state reached is returned; the tie theorems
+    say for which `n` the test is false at the end, i.e. the python loop has really finished) -/
+def whileUpTo {σ : Type} (n : Nat) (test : σ → Bool) (body : σ → Except PyErr σ) (s : σ) : Except PyErr σ :=
+  match n with
+  | 0 => .ok s
+  | n + 1 => if test s then (body s) >>= whileUpTo n test body else .ok s
+
 end Py
 
 /-- forget the message of a model-side error: only the class is compared -/
